@@ -1205,8 +1205,16 @@ func (mpt *MerklePatriciaTrie) MergeDB(ndb NodeDB, root Key, deadNodes []Node) e
 	mpt.mutex.Lock()
 	defer mpt.mutex.Unlock()
 	handler := func(ctx context.Context, key Key, node Node) error {
-		_, _, err := mpt.insertNode(nil, node)
-		return err
+		// take the node over as it is: insertNode would stamp it with this trie's
+		// version, which changes its hash (the tree refers to it by the old one)
+		// and modifies the donor's object
+		ckey := node.GetHashBytes()
+		if err := mpt.db.PutNode(ckey, node); err != nil {
+			return err
+		}
+		mpt.cache.Set(string(ckey), node)
+		mpt.ChangeCollector.AddChange(nil, node)
+		return nil
 	}
 	mpt.root = root
 	mpt.deleteNodes = append(mpt.deleteNodes, deadNodes...)
